@@ -361,7 +361,7 @@ def check_inplace_edit(d, M):
                 p = (src / rel / dd["readme"]["file"]) if rel else (src / dd["readme"]["file"])
                 with open(p, "r+") as f:        # the same file, rewritten in place: the directory itself is not touched
                     f.seek(0)
-                    f.write("# %s\n\nhello\n\n%s\n" % (dd["readme"]["title"], links))
+                    f.write("# %s\n\n%s\n\n%s\n" % (dd["readme"]["title"], dd["readme"].get("body", "hello"), links))
                     f.truncate()
         with Listing("sorted"):
             generate_static_site(src, scratch / "out2", M)
